@@ -10,9 +10,10 @@ PROPS = ["c20_published", "c20_published_sites", "c20_site_verdict_needed", "c20
          "c20_backup_rename_refuted", "c20_startup_name_only", "c20_startup_leftover"]
 
 TRUSTED = [
-    "encoding/gob, bufio and Dominator fsutil.CreateRenamingWriter between saveEvents and loadEvents (run for real on every save/reload, not modelled)",
+    "encoding/gob and bufio between saveEvents and loadEvents (run for real on every save/reload; the model has 'a complete document of generation g' or 'something the decoder rejects'); Dominator fsutil.CreateRenamingWriter/Close is modelled as its list of file operations (open f~, write, fsync, close, rename, remove) and run for real with injected faults; the file system itself is names -> contents with atomic rename (no directory fsync, no delayed allocation)",
     "Go channel semantics: a buffered channel of capacity k accepts a non-blocking send iff it holds fewer than k elements (the model's try_send); the Go scheduler / memory model",
-    "harness/eventnotifier/verif_export.go: registers a subscriber channel with the three statements of handleConnection (one history also uses the real CONNECT stream); TestVerif_C20S uses only the exported ServeHTTP with a hijackable writer over net.Pipe",
+    "harness/eventnotifier/verif_export.go: registers a subscriber channel as handleConnection does, through reflection on the transmitChannels map (one history also uses the real CONNECT stream); TestVerif_C20S uses only the exported ServeHTTP with a hijackable writer over net.Pipe and the exported Publish* methods",
+    "the 4 s watchdog around every publishing operation in TestVerif_C20S stands for 'does not return' (8 s in TestVerif_C20)",
     "the recorder harness sets CreateTime of the event just recorded (recordEvent stamps time.Now() itself); expiry and load read the real clock",
     "tools/extract c20.go: signing-site table (handler reachability by name, lexical order of publish and response) and notifier send table",
     "fake STS endpoint in front of the cloud-role path",
@@ -92,6 +93,9 @@ def run(ctx):
     for j, res in zip(jobs, outs):
         if res is not None:
             corr(ctx, res, j[1], j[3] % res.get(j[4], "?"), j[2])
+            if j[1] == "c20r_mismatches":
+                violating(ctx, res, "c20r_violating", "reload", j[2],
+                          "property predicate evaluated in Coq on the observed dumps: a save and restart comes back with the entries of the state observed before it that are within the retention, in the same order")
             if j[1] == "c20f_mismatches":
                 violating(ctx, res, "c20f_violating", "history-lost", j[2],
                           "property predicate evaluated in Coq on the observed restart: with a previous generation on disk the recorder comes back with it or with the new one")
